@@ -81,7 +81,11 @@ pub fn fault_call(ch: &mut Chooser, kind: &str) -> Option<(Expr, Vec<Expr>)> {
             1 => (var("vector-set!"), vec![Expr::VecLit(vec![Datum::Int(1), Datum::Int(2)]), Expr::Int(1), Expr::Int(9)]),
             _ => (var("vector-set!"), vec![q(Datum::Vector(vec![Datum::Int(4)])), Expr::Int(0), Expr::Int(9)]),
         },
-        "division-by-zero" => match ch.below(7) {
+        "division-by-zero" => match ch.below(10) {
+            // a zero dividend does not make the division by exact zero any less of an error
+            7 => (var("floor-remainder"), vec![Expr::Int(0), Expr::Int(0)]),
+            8 => (var("floor-quotient"), vec![Expr::Int(0), Expr::Int(0)]),
+            9 => (var("/"), vec![Expr::Int(0), Expr::Int(0)]),
             0 => (var("/"), vec![Expr::Int(1), Expr::Int(0)]),
             1 => (var("/"), vec![Expr::Int(5), app("-", vec![Expr::Int(2), Expr::Int(2)])]),
             2 => (var("floor-quotient"), vec![Expr::Int(7), Expr::Int(0)]),
